@@ -56,7 +56,7 @@ theorem factory_refuses_batch_larger_than_cache (maxBatch capacity : Nat) (h : G
 /-- (regenerated fact) Put, Get (lookup + persister read + refill) and Remove each hold the unit lock for their whole body:
     the two layers are updated under one lock, so concurrent calls are serialised and the sequential statements apply -/
 theorem unit_operations_hold_the_lock_throughout :
-    (Facts.unitGetSingleSection && Facts.unitPutSingleSection && Facts.unitRemoveSingleSection) = true :=
+    (Facts.unitGetSingleSection && Facts.unitPutSingleSection && Facts.unitRemoveSingleSection && Facts.unitHasSingleSection) = true :=
   Facts.unit_operations_are_single_sections
 
 end SV.Props.C16
